@@ -65,6 +65,10 @@ pub struct GenCfg {
     /// restrict keys, values and spellings to what is both TOML and a sequence of Rust tokens the
     /// `toml!` macro takes (C19)
     pub rust_tokens: bool,
+    /// wide documents: the root gets 14..54 entries, most of them `[tables]` and `[[arrays of
+    /// tables]]` with few entries each (code that sorts or indexes tables behaves differently
+    /// beyond a few dozen of them); needs a budget of a few hundred
+    pub many_sections: bool,
 }
 
 impl Default for GenCfg {
@@ -85,6 +89,7 @@ impl Default for GenCfg {
             sub_before_super: true,
             sections_under_dotted: true,
             rust_tokens: false,
+            many_sections: false,
         }
     }
 }
@@ -176,6 +181,9 @@ impl G<'_, '_> {
             if !used.iter().any(|(u, _)| *u == k) && !k.starts_with("$__") {
                 return Some(k);
             }
+        }
+        if self.cfg.many_sections && !self.cfg.rust_tokens {
+            return Some(format!("s{}", used.len()));
         }
         None
     }
@@ -295,14 +303,21 @@ impl G<'_, '_> {
     fn header_table(&mut self, depth: usize, layout: Layout) -> GTable {
         self.budget -= 1;
         let mut entries: Vec<(String, GNode)> = vec![];
-        let n = if layout == Layout::Root { 1 + self.t.small(8) } else { self.t.small(5) };
+        let wide = self.cfg.many_sections;
+        let n = match (layout == Layout::Root, wide) {
+            (true, true) => 14 + self.t.small(40),
+            (true, false) => 1 + self.t.small(8),
+            (false, true) => self.t.small(3),
+            (false, false) => self.t.small(5),
+        };
+        let weights: [u32; 6] = if wide && layout == Layout::Root { [3, 1, 8, 0, 1, 6] } else { [10, 3, 3, 4, 1, 3] };
         for _ in 0..n {
             let Some(k) = self.key(&entries) else { continue };
             let deep_ok = depth < self.cfg.max_depth && self.budget > 0;
             let node = if !deep_ok {
                 GNode::Scalar(self.scalar())
             } else {
-                match self.t.weighted(&[10, 3, 3, 4, 1, 3]) {
+                match self.t.weighted(&weights) {
                     0 => self.value(depth),
                     1 => GNode::Table(self.dotted(depth + 1, true)),
                     2 => GNode::Table(self.header_table(depth + 1, Layout::Header)),
@@ -1169,6 +1184,9 @@ pub fn render(tree: &GTable, t: &mut Tape, cfg: &GenCfg) -> Rendered {
     let gen_model = tree_model(tree);
     if let Err(e) = crate::model::diff_tbl(&expected, &gen_model, crate::model::Cmp::UNORDERED) {
         panic!("HARNESS: statement semantics differ from generated tree: {e}\n{}", em.text);
+    }
+    if secs.len() > 20 {
+        em.classes.push("sections>20");
     }
     Rendered {
         text: em.text,
